@@ -623,8 +623,11 @@ inductive Where
   deriving Repr, DecidableEq, Inhabited
 
 /-- scan `reversed(l)` : returns the highest index whose element satisfies `p`. -/
-def findLastIdx {α} (p : α → Bool) (l : List α) : Option Nat :=
-  (l.zipIdx.filter (fun x => p x.1)).getLast?.map (·.2)
+def findLastIdxAux {α} (p : α → Bool) : List α → Nat → Option Nat → Option Nat
+  | [], _, acc => acc
+  | x :: xs, i, acc => findLastIdxAux p xs (i + 1) (if p x then some i else acc)
+
+def findLastIdx {α} (p : α → Bool) (l : List α) : Option Nat := findLastIdxAux p l 0 none
 
 /-- `getinfo(addr)` for an integer address: `(s, offset, base)` -/
 def getinfo (t : ElfTables) (addr : Nat) : Where × Nat × Nat :=
